@@ -12,8 +12,9 @@ of slots, workers, chunks, writer jobs, loaders, files.
 * `Fin`     — `Repository.restore._download_chunk`: pending digest sets, `files_metadata.pop` (S3, loaders / finaliser)
 
 Shapes read from the source on every run (`Replicat.Gen`, tools/sections/09_sched.py): slot numbering, release-in-`finally`,
-the worker's loop test, the abort protocol, the delete-at-zero guard of the lock table and — as a *parameter* of `Fin`, so that
-the old behaviour stays expressible — whether the emptiness decision is taken under the lock.
+the worker's loop test, the abort protocol, the delete-at-zero guard of the lock table and — as *parameters* of `Fin` / `Snap`, so
+that the other behaviour stays expressible — whether the emptiness decision is taken under the lock, and whether the producer's
+`chunk_queue.put` is a loop of timed attempts that re-tests the abort flag (or one blocking call).
 
 What is NOT here (claim is partial): pre-emption inside CPython byte code between the instrumented points, the GIL, the event
 loop's internals; liveness is deadlock freedom (+ a bound on the number of progress steps), not a time bound.
@@ -102,29 +103,39 @@ structure Snap where
   processed : List Nat   -- chunks for which `_chunk_done` ran, latest first
   lost : List Nat        -- chunks taken by a worker that failed (ghost)
   uploaded : Bool        -- the snapshot object was uploaded
+  inPut : Bool           -- the producer is past the abort test for chunk `produced`, inside `chunk_queue.put(chunk…)`
 deriving Repr
 
 inductive SnapEv
-  | put | prodStop | prodVisible
+  | enterPut | put | prodStop | prodVisible
   | take (w : Nat) | poll (w : Nat) | exit (w : Nat) | finish (w : Nat) (ok : Bool)
   | raiseAbort | upload
 deriving Repr
 
 def Snap.init (total n : Nat) : Snap :=
-  ⟨total, Gen.queueFactor * n, 0, [], false, false, false, List.replicate n .idle, [], [], false⟩
+  ⟨total, Gen.queueFactor * n, 0, [], false, false, false, List.replicate n .idle, [], [], false, false⟩
 
 def anyFailed (ws : List WPhase) : Bool := ws.any (· == .failed)
 def anyExited (ws : List WPhase) : Bool := ws.any (· == .exited)
 def allExited (ws : List WPhase) : Bool := ws.all (· == .exited)
 def allStopped (ws : List WPhase) : Bool := ws.all (fun p => p == .exited || p == .failed)
 
-def Snap.step (s : Snap) : SnapEv → Option Snap
+/-- `rechecks` = the producer's put is a loop of timed attempts with the abort test in between (`Gen.producerRechecksWhileFull`);
+`false` = one blocking `chunk_queue.put(chunk)` after a single abort test: a producer waiting on a full queue never looks at the
+flag again -/
+def Snap.step (rechecks : Bool) (s : Snap) : SnapEv → Option Snap
+  | .enterPut =>
+    -- chunk `produced` is ready, `if abort.is_set(): return` was not taken, the producer calls `chunk_queue.put`
+    if !s.prodFinished ∧ !s.inPut ∧ s.produced < s.total ∧ !(s.abort && Gen.producerStopsOnAbort) then some { s with inPut := true } else none
   | .put =>
-    -- `chunk_queue.put(chunk, timeout=…)` succeeded (the abort flag is tested *before* the attempt, so a put may follow a set flag)
-    if !s.prodFinished ∧ s.produced < s.total ∧ s.queue.length < s.cap then
-      some { s with queue := s.queue ++ [s.produced], produced := s.produced + 1 } else none
+    -- `chunk_queue.put(chunk…)` succeeded: there was room (a put that has been entered may follow a set flag)
+    if !s.prodFinished ∧ s.inPut ∧ s.produced < s.total ∧ s.queue.length < s.cap then
+      some { s with queue := s.queue ++ [s.produced], produced := s.produced + 1, inPut := false } else none
   | .prodStop =>
-    if !s.prodFinished ∧ (s.produced = s.total ∨ (s.abort ∧ Gen.producerStopsOnAbort)) then some { s with prodFinished := true } else none
+    -- `_chunk_producer` returns: after the last chunk, or at an abort test — the one before the put or (`rechecks` only) the one
+    -- between two timed attempts of a put that found the queue full
+    if !s.prodFinished ∧ (s.produced = s.total ∨ (s.abort ∧ Gen.producerStopsOnAbort ∧ (!s.inPut ∨ rechecks))) then
+      some { s with prodFinished := true } else none
   | .prodVisible =>
     if s.prodFinished ∧ !s.prodDone then some { s with prodDone := true } else none
   | .take w =>
@@ -169,8 +180,24 @@ def wWeight : WPhase → Nat
   | .idle => 1 | .busy _ => 2 | .exited => 0 | .failed => 0
 
 def Snap.measure (s : Snap) : Nat :=
-  3 * (s.total - s.produced) + 2 * s.queue.length + (s.workers.map wWeight).sum
+  4 * (s.total - s.produced) + 2 * s.queue.length + (s.workers.map wWeight).sum
     + (if s.prodFinished then 0 else 1) + (if s.prodDone then 0 else 1) + (if s.abort then 0 else 1) + (if s.uploaded then 0 else 1)
+    + (if s.inPut then 0 else 1)
+
+/-- the progress events that can possibly be enabled in a state with `n` workers (`poll` is the stutter) -/
+def Snap.candidates (n : Nat) : List SnapEv :=
+  [.enterPut, .put, .prodStop, .prodVisible, .raiseAbort, .upload] ++
+    (List.range n).flatMap (fun w => [.take w, .exit w, .finish w true, .finish w false])
+
+/-- one worker, queue bound `c`: the producer fills the queue, the worker takes the first chunk, the producer queues one more and
+enters the put of chunk `c + 1` on the full queue; then the worker's transfer fails and the abort flag is raised -/
+def Snap.floodSchedule (c : Nat) : List SnapEv :=
+  (List.replicate c [SnapEv.enterPut, SnapEv.put]).flatten ++
+    [.take 0, .enterPut, .put, .enterPut, .finish 0 false, .raiseAbort]
+
+/-- nothing can move any more although the operation is not over: a hang -/
+def Snap.stuck (rechecks : Bool) (s : Snap) : Bool :=
+  !s.finished && (Snap.candidates s.workers.length).all (fun e => (Snap.step rechecks s e).isNone)
 
 /-! ## S3 (writers) — per-file write locks with reference counts -/
 
